@@ -276,13 +276,13 @@ func (e *Equation) Append(buf []byte, parens bool) []byte {
 			}
 		default:
 			if e.left != nil {
-				buf = e.left.Append(buf, e.left.o != nil && e.left.o.prec >= e.o.prec)
+				buf = e.left.appendOperand(buf, e.o, false)
 			}
 			buf = append(buf, ' ')
 			buf = append(buf, e.o.name...)
 			buf = append(buf, ' ')
 			if e.right != nil {
-				buf = e.right.Append(buf, e.left.o != nil && e.left.o.prec >= e.o.prec)
+				buf = e.right.appendOperand(buf, e.o, true)
 			}
 		}
 	}
@@ -290,6 +290,46 @@ func (e *Equation) Append(buf []byte, parens bool) []byte {
 		buf = append(buf, ')')
 	}
 	return buf
+}
+
+// wrapAsOperand returns true if the equation needs parenthesis when it is
+// the left or right operand of the po operator. Operators of the same
+// precedence are parsed left to right and a ! takes everything to its right
+// so a right operand of the same precedence and a left operand that ends
+// with a bare ! expression are wrapped.
+func (e *Equation) wrapAsOperand(po *op, right bool) bool {
+	if e.o == nil {
+		return false
+	}
+	if e.o.prec == 0 { // !, get, group, and functions
+		return !right && e.endsNot()
+	}
+	return po.prec <= e.o.prec || (!right && e.endsNot())
+}
+
+// endsNot returns true if the text of the equation ends with a ! expression
+// that is not inside parenthesis.
+func (e *Equation) endsNot() bool {
+	if e.o == nil {
+		return false
+	}
+	if e.o.code == not.code {
+		return true
+	}
+	if e.o.prec == 0 || e.right == nil || e.right.wrapAsOperand(e.o, true) {
+		return false
+	}
+	return e.right.endsNot()
+}
+
+func (e *Equation) appendOperand(buf []byte, po *op, right bool) []byte {
+	if e.wrapAsOperand(po, right) && e.o.code == not.code {
+		// Append() never wraps a ! expression.
+		buf = append(buf, '(')
+		buf = e.Append(buf, false)
+		return append(buf, ')')
+	}
+	return e.Append(buf, e.wrapAsOperand(po, right))
 }
 
 func (e *Equation) appendValue(buf []byte, v any) []byte {
